@@ -6,7 +6,7 @@ import ast
 import z3
 
 from pyvc import specz3
-from pyvc.sym import (I, B, A, A2, iv, add, sub, lit, fresh, fresh_seq, Seq, Tup, Mat, Row, Obj, FloatV, NONE, NoneV, const_str, const_list, MaskV, ZipSeq, MaybeFloat, qforall)
+from pyvc.sym import (I, B, A, A2, iv, add, sub, lit, fresh, fresh_seq, Seq, Tup, Mat, Row, Obj, FloatV, NONE, NoneV, const_str, const_list, MaskV, ZipSeq, MaybeFloat, qforall, LazySeq, MatLazy, DictV)
 
 
 def U(msg):
@@ -54,7 +54,22 @@ def str_map(ex, e, st, base, attr):
 
 
 def astype(ex, e, st, base):
-    raise U("astype")
+    """x.astype(bool): entry != 0 (kept as 0/1) ; x.astype(int): same numbers."""
+    ex.trusted_used.add("ndarray.astype(bool | int)")
+    t = ex.ev(e.args[0], st)
+    kind = t[1] if isinstance(t, tuple) and t[0] == "type" else None
+    if kind not in ("bool", "int"):
+        raise U("astype to this type")
+    conv = (lambda x: z3.If(x != 0, iv(1), iv(0))) if kind == "bool" else (lambda x: x)
+    if isinstance(base, (Mat, MatLazy)):
+        return MatLazy(base.rows, base.cols, lambda r_, c_, b=base: conv(b.at(r_, c_)), kind)
+    if isinstance(base, LazySeq):
+        return LazySeq(base.n, lambda j, b=base: conv(b.at(j)), dtype=kind)
+    if isinstance(base, Seq):
+        if kind == "int":
+            return base
+        return LazySeq(base.n, lambda j, b=base: conv(b.at(j)), dtype=kind)
+    raise U("astype of this value")
 
 
 VERDICT = z3.Function("filter_accepts", I, I, I, B)      # verdict of an abstract filter on the k-mer (length k, base-4 value i)
@@ -138,6 +153,13 @@ def np_sum(ex, e, st):
     v = ex.ev(e.args[0], st)
     if isinstance(v, tuple) and v[0] == "mapped":
         v = v[1]
+    kw = {k.arg: k.value for k in e.keywords}
+    if isinstance(v, (Mat, MatLazy)) and set(kw) == {"axis"} and lit(toint(ex.ev(kw["axis"], st))) == 1:
+        cols = lit(v.cols)
+        if cols is None or cols > 8:
+            raise U("row sums of a wide matrix")
+        ex.trusted_used.add("numpy.sum(matrix, axis=1): row sums")
+        return LazySeq(v.rows, lambda r_, v=v, cols=cols: z3.Sum([v.at(r_, c_) for c_ in range(cols)]))
     if not isinstance(v, Seq) or e.keywords or len(e.args) != 1:
         raise U("sum of this value")
     if getattr(v, "float_if_empty", False):
